@@ -65,6 +65,20 @@ PLAN["C20"] = {
     "components": {"real": ["std/engine/basic Engine (Express, onPacket, onData, onNack, timeout closures, handlers, Reply)", "std/engine/basic NameTrie", "std/ndn/spec_2022 codec"], "stub": ["face (SimFace implementing std/engine/face.Face)", "timer (SimTimer implementing ndn.Timer: event heap, scenario-chosen firing order)"]},
     "assumptions": ["Express is not called re-entrantly from inside a result callback (the engine holds its PIT lock there)", "a Nack is allowed, not required, to resolve the Interests of its name"],
 }
+PLAN["C11"] = {
+    "parts": [{"engine": "streamsim", "quick": 5000, "thorough": 400000, "quick_wall": 80}],
+    "nontrivial": "the stream wrapped the 32-packet receive buffer at least once and >=1 read ended inside a type or length field (readTlvStream), or >3 blocks went through StreamFace.Run over a pipe",
+    "fault_note": "stream I/O faults: arbitrary chunking incl. 1-byte reads and reads ending inside T/L, reads that exactly fill the buffer, transient read errors (with and without data), EOF at an arbitrary byte",
+    "components": {"real": ["fw/face readTlvStream (the loop behind TCP and Unix stream transports)", "std/engine/face StreamFace.Run (over net.Pipe in a synctest bubble)", "std/encoding ReadTLNum"], "stub": ["socket (scripted io.Reader / net.Pipe)", "link service above the framing (frames are copied inside the callback, as handleIncomingFrame does)"]},
+    "assumptions": ["TLV lengths use the shortest encoding (NDN packet format); 5-byte VAR-NUMBER forms are exercised in the type field", "EOF is delivered as a separate (0, EOF) read, as net.Conn does"],
+}
+PLAN["C10"] = {
+    "parts": [{"engine": "linksim", "quick": 40000, "thorough": 4000000}],
+    "nontrivial": "a message needed >=2 fragments, or its single-frame encoding landed within 2 bytes of the MTU",
+    "fault_note": "link schedule = permutation/interleaving of the frames of up to three concurrent messages (clean population: exactly-once and byte identity are demanded); separate populations with frame loss (never a partial or altered delivery) and frame duplication (every delivered copy byte-identical)",
+    "components": {"real": ["fw/face NDNLPLinkService send path (sendPacket: MTU budgeting, fragmentation, LP encoding)", "fw/face NDNLPLinkService receive path (handleIncomingFrame, reassemblePacket, dispatch)", "std/ndn/spec_2022 LpPacket codec"], "stub": ["transport (SimTransport: frames handed to the scenario's link schedule)", "forwarding threads behind the receiver (recording dispatch.FWThread)"]},
+    "assumptions": ["PIT tokens are at most 32 bytes (NDNLPv2)", "the receiver is a non-local face (local faces fan Data out to several threads by design)"],
+}
 
 NOT_APPLICABLE = [
     {"property_id": "C03", "reason": "encode->decode round trip is a pure function of the packet value and a byte segmentation: no schedule, clock, fault or shared state for a simulator to own"},
@@ -74,6 +88,8 @@ NOT_APPLICABLE = [
 ]
 
 ENGINES = [
+    {"name": "linksim", "path": "sim/facesim/link.go", "serves_properties": ["C10"], "kind_free_text": "two real link services joined by a simulated datagram link that permutes, drops and duplicates frames"},
+    {"name": "streamsim", "path": "sim/facesim/stream.go", "serves_properties": ["C11"], "kind_free_text": "scripted stream socket (chunking, transient errors, EOF) under the real stream framing loops"},
     {"name": "enginesim", "path": "sim/enginesim", "serves_properties": ["C20"], "kind_free_text": "real application engine on a simulated face and a simulated timer (event heap); scenario-chosen interleaving of arrivals and timer firings"},
     {"name": "tablesim", "path": "sim/tablesim", "serves_properties": ["C05", "C06", "C08"], "kind_free_text": "operation histories (with face teardown injected) against the real FIBs and RIB; reference models; shrinking; replay"},
     {"name": "fwsim", "path": "sim/fwsim", "serves_properties": ["C01", "C02", "C07", "C08", "C09"], "kind_free_text": "one real forwarding thread in a synctest bubble (fake clock, quiescence stepping), simulated faces and scripted peers, reference PIT/CS/FIB model"},
